@@ -317,3 +317,5 @@ def check(ctx):
     from . import tablefmt
     tablefmt.check_iterator_statuses(ctx)     # a failed table read during compaction / lookup must not end as success
     check_aborts(ctx)
+    from . import c05
+    c05.check_log_file(ctx)       # only a damaged log record may be forgiven during replay, never a failed flush
